@@ -276,6 +276,17 @@ func runC19(r *ev.Run) {
 				eq[j] = comet.TextResult{Id: uint32(j + 1), Score: sc[0]}
 			}
 			variants = append(variants, eq)
+			// not a single finite score (all +Inf, all -Inf, all NaN, or a mixture)
+			nf := make([]comet.TextResult, ln)
+			kind := rng.IntN(4)
+			for j := range nf {
+				x := []float32{float32(math.Inf(1)), float32(math.Inf(-1)), float32(math.NaN())}[rng.IntN(3)]
+				if kind < 3 {
+					x = []float32{float32(math.Inf(1)), float32(math.Inf(-1)), float32(math.NaN())}[kind]
+				}
+				nf[j] = comet.TextResult{Id: uint32(j + 1), Score: x}
+			}
+			variants = append(variants, nf)
 		}
 		for _, list := range variants {
 			for _, cut := range []int{-3, -1, 0, 1, 2, 3, len(list), len(list) + 3} {
